@@ -168,8 +168,8 @@ func checkCase(c Case, e *env.Env) (*hx.Violation, outcome) {
 			if now < ast {
 				// before the stream start: remaining time is at least until the start and at most until the segment is available
 				lo = ast - now - 1
-				if c.Cfg.AtoInf() || hi < lo {
-					hi = ast - now + 1
+				if c.Cfg.AtoInf() || hi < ast-now+1 {
+					hi = ast - now + 1 // an offset larger than the segment end puts A_n before the start: then the start is what is waited for
 				}
 			}
 			if got < lo || got > hi {
